@@ -295,7 +295,7 @@ func c09FinalCheck(cw *c09World) []vsched.Violation {
 	return out
 }
 
-func c09Run(t *testing.T, shape c09Shape) func(c *vsched.Chooser) vsched.Outcome {
+func c09Run(t *testing.T, shape c09Shape, cost3 int) func(c *vsched.Chooser) vsched.Outcome {
 	return func(c *vsched.Chooser) vsched.Outcome {
 		var out vsched.Outcome
 		w := &lfWorld{}
@@ -331,7 +331,7 @@ func c09Run(t *testing.T, shape c09Shape) func(c *vsched.Chooser) vsched.Outcome
 				n3 := 1 + 2*n
 				costs3 := make([]int, n3)
 				for i := 1; i < n3; i++ {
-					costs3[i] = 1
+					costs3[i] = cost3
 				}
 				i3 := c.Choose("config", n3, costs3, func(i int) string {
 					switch {
@@ -441,18 +441,30 @@ func TestVerifC09(t *testing.T) {
 	r.Assumption("event granularity: client operations, PostStop/PreStart gate releases and death-watch deliveries are interleaved in every order; code between two gates runs without harness-controlled preemption")
 	r.Assumption("orders in which a second stopper would wait on a held PID.stopLocker are represented by the order in which it starts right after the lock is released")
 	var scs []vsched.Scenario
+	// order: small explorations first, the largest last (they inherit unused budget)
+	order := []string{"1", "4chain", "4stem-fork", "4fork-leaf", "4wide", "2", "3wide", "3deep"}
+	byName := map[string]c09Shape{}
 	for _, sh := range c09Shapes {
-		// bounds: <=3 actors: one optional extra operation (quick) / both (thorough);
-		// 4 actors: single stop only (quick) / one optional extra operation (thorough)
-		bound := vsched.Pick(1, 2)
-		if len(sh.parent) == 4 {
+		byName[sh.name] = sh
+	}
+	for _, name := range order {
+		sh := byName[name]
+		// bounds (cost 1 = second stop operation; the third operation costs cost3):
+		//   quick:    <=2 actors: one extra operation of either kind; 3 actors: a second stop only
+		//             (cost3=2 exceeds the bound); 4 actors: single stop
+		//   thorough: <=3 actors: second stop and third operation; 4 actors: one extra operation
+		bound, cost3 := vsched.Pick(1, 2), 1
+		switch len(sh.parent) {
+		case 3:
+			cost3 = vsched.Pick(2, 1)
+		case 4:
 			bound = vsched.Pick(0, 1)
 		}
 		scs = append(scs, vsched.Scenario{
 			Cfg: vsched.Config{Scenario: "c09/" + sh.name, Bound: bound, SplitDepth: 2,
-				Params: map[string]any{"parents": sh.parent}},
-			Run: c09Run(t, sh),
+				Params: map[string]any{"parents": sh.parent, "cost_third_op": cost3}},
+			Run: c09Run(t, sh, cost3),
 		})
 	}
-	vsched.ExploreAll(scs)
+	lfExploreAll(scs)
 }
